@@ -8,6 +8,7 @@ Only closed expressions and tables are translated (DESIGN.md section 4.1):
   Gen/BlendTable.v blend_mode.rs: should_pre_scale_coverage, to_stage; lowp::STAGES null_fn slots
   Gen/Consts.v    assorted constants
   Gen/NoGlobals.v occurrences of global mutable state
+  Gen/FixedGen.v  fixed_point.rs, math.rs: the integer helpers (tools/translate_fixed.py)           -> checked Z arithmetic
 A fragment that no longer parses is reported (ok=False) and the previous generated text is
 replaced by a stub that makes dependent proofs fail, never silently kept.
 """
@@ -681,6 +682,23 @@ def gen_stroker_fields(repo, outdir, results):
         txt += "Definition builder_new_state : list (string * string) := %s.\n" % coq(f_new)
         txt += "Definition builder_clear_state : list (string * string) := %s.\n" % coq(f_clr)
         txt += "Definition path_clear_state : list (string * string) := %s.\n" % coq(f_pcl)
+        # <PathBuilder as Default>::default(): hand-written (its body decides), derived (every field gets its type's
+        # default: 0 / false / empty), or absent (then there is nothing to compare: the state of new())
+        m = re.search(r"impl Default for PathBuilder \{\s*fn default\(\) -> Self \{(.*?)\n    \}\n", pb, re.S)
+        derive = re.search(r"#\[derive\(([^)]*)\)\]\s*pub struct PathBuilder", pb)
+        if m:
+            body = re.sub(r"//[^\n]*", "", m.group(1)).strip()
+            if body in ("PathBuilder::new()", "Self::new()"):
+                f_def = f_new
+            elif "PathBuilder {" in body or "Self {" in body:
+                f_def = lit(body.replace("Self {", "PathBuilder {"))
+            else:
+                f_def = [("?", body[:60].replace('"', "'"))]
+        elif derive and "Default" in derive.group(1):
+            f_def = sorted((k, {"verbs": "empty", "points": "empty", "last_move_to_index": "0"}.get(k, "false")) for k, _ in f_new)
+        else:
+            f_def = f_new
+        txt += "Definition builder_default_state : list (string * string) := %s.\n" % coq(f_def)
     except Exception as ex:
         ok = False
         msg += " builder states: " + str(ex)
@@ -697,6 +715,8 @@ def run(repo, outdir):
     gen_blend_table(repo, outdir, results)
     gen_noglobals(repo, outdir, results)
     gen_stroker_fields(repo, outdir, results)
+    from translate_fixed import gen_fixed
+    gen_fixed(repo, outdir, results)
     return results
 
 
